@@ -20,6 +20,8 @@ def generate(G):
         ("recip", "Recip", [([2], "Pos")], False, (), 6),
         ("sum1", "Sum(1)", [([2, 2], "D4")], False, (), 8),
         ("sum0", "Sum(0)", [([2], "D4")], True, (), 6),
+        ("sum1_unit", "Sum(1)", [([2, 1], "D4")], False, (), 6),
+        ("sum2_units", "Sum(2)", [([2, 1, 1], "D4")], False, (), 6),
         ("reshape", "Reshape(&[2, 1])", [([2], "D4")], True, (), 6),
         ("relu", "Relu", [([2], "Sgn")], False, (), 6),
         ("sigmoid", "Sigmoid", [([2], "D2")], False, ("exp",), 6),
@@ -30,7 +32,7 @@ def generate(G):
         ("conv", "Conv((1, 1))", [([1, 2, 2], "D2"), ([1, 1, 1, 2], "D2")], False, (), 8),
     ]
     quick = {("add", (False, False)), ("add", (True, False)), ("mul", (False, True)), ("div", (False, False)), ("neg", (False,)),
-             ("neg", (True,)), ("powf", (False,)), ("sum1", (False,)), ("sum0", (False,)), ("reshape", (True,)), ("relu", (False,)),
+             ("neg", (True,)), ("powf", (False,)), ("sum1", (False,)), ("sum0", (False,)), ("sum1_unit", (True,)), ("reshape", (True,)), ("relu", (False,)),
              ("matmul_c", (False, False, True)), ("matmul_c", (False, False, False)), ("matmul_c1", (False, False, True)), ("matmul", (True, False)),
              ("conv", (False, False)), ("conv", (False, True)), ("softmax", (False,)), ("exp", (True,))}
     for id, prog, ls, is_view, stubs, unwind in ops:
@@ -60,6 +62,11 @@ def generate(G):
     G.ob("c09_grad_detachmid", "C09", "presence", "grad::grad(s, &programs::DetachMid, %s, Seed::Explicit(Dom::D4), false)" %
          G.leaves([L([2]), L([2])]), unwind=6, tier="quick",
          skeleton={"program": "(a*b).untracked() * a + b", "what": "nothing flows through an untracked intermediate"})
+    for t0, t1 in [(True, False), (False, True)]:
+        G.ob("c09_grad_dot_t%d%d" % (t0, t1), "C09", "presence",
+             "grad::grad(s, &programs::Matmul { at: false, bt: false, c: false }, %s, Seed::Explicit(Dom::D4), false)" % G.leaves([L([2], tracked=t0), L([2], tracked=t1)]),
+             unwind=8, tier="quick" if t0 else "thorough",
+             skeleton={"program": "dot product of two vectors", "tracked": [t0, t1], "what": "only the tracked vector receives a gradient"})
     for t0, t1 in [(True, False), (False, True)]:
         G.ob("c09_grad_diamond_t%d%d" % (t0, t1), "C09", "presence",
              "grad::grad(s, &programs::Diamond, %s, Seed::Explicit(Dom::D4), false)" % G.leaves([L([2], tracked=t0), L([2], tracked=t1)]),
